@@ -59,6 +59,19 @@ fn run<B: SimField, H: ElementHasher<BaseField = B> + Send + Sync + 'static>(
     if case.shape.exemptions > 1 {
         ctx.probe("exemptions_gt_1");
     }
+    if let Some(a) = case.shape.aux.as_ref().and_then(|a| a.asserts.first()) {
+        let n = case.shape.len();
+        ctx.probe("aux_sequence_assertion");
+        if n / a.stride >= 64 {
+            ctx.probe("aux_sequence_assertion_64_or_more");
+        }
+        if a.first != 0 {
+            ctx.probe("aux_sequence_assertion_first_step_nonzero");
+        }
+    }
+    if case.options.blowup_factor() > case.shape.min_blowup() {
+        ctx.probe("lde_blowup_above_constraint_evaluation_blowup");
+    }
     if is_rescue(cfg) {
         ctx.probe("rescue_hasher");
     }
